@@ -157,7 +157,9 @@ func Harness_C06A_tkzNextNOL() {
 	}
 	// assumption: no token / comment spans lines in this buffer
 	for i := 0; i < len(buf); i++ {
-		verifAssume(buf[i] != '`' && buf[i] != '*' && buf[i] != '"')
+		verifAssume(buf[i] != '`')
+		verifAssume(buf[i] != '*')
+		verifAssume(buf[i] != '"')
 	}
 	tkz := Tokenizer{buf: buf, current: t, col: 0}
 	var nt Tokenizer
